@@ -7,7 +7,7 @@ from vlib import *  # noqa
 TRANSPORTS = ["rs-json", "rs-msgpack", "rs-cbor", "ws-json", "ws-msgpack", "ws-cbor", "wsk-json", "wsk-msgpack", "wsk-cbor"]
 
 
-def over_transports(scns, seed):
+def over_transports(scns, seed, kinds=None):
     """every network session of a scenario gets a wire transport; the specification does not
     know about transports, so the same trace specification must accept the run"""
     rnd = random.Random(seed)
@@ -17,7 +17,8 @@ def over_transports(scns, seed):
         used = []
         for st in sc["steps"]:
             if st["op"] == "join" and not st["join"]["local"]:
-                st["join"]["tr"] = TRANSPORTS[(n + len(used) + rnd.randrange(2)) % len(TRANSPORTS)]
+                tl = kinds or TRANSPORTS
+                st["join"]["tr"] = tl[(n + len(used) + rnd.randrange(2)) % len(tl)]
                 used.append(st["join"]["tr"])
         sc["transports"] = used
         out.append(sc)
@@ -207,7 +208,8 @@ def run_wire(prop, spec, tier, seed, work, replay):
                                  defs={"KindBag": families.BAG[bag]})
             for s in part:
                 s["epilogue"] = True
-            cscn += over_transports(part, seed + gi)
+            # (unserialisable payloads: mostly towards websocket peers with keep-alive, whose send loop is another one)
+            cscn += over_transports(part, seed + gi, ["wsk-json", "wsk-msgpack", "wsk-cbor", "ws-msgpack", "rs-json"] if mode == "unser" else None)
     byid = {s["id"]: s for s in wscn + cscn}
     cov_w, cov_c, cov_s = (0, 0, []), (0, 0, []), (0, 0, [])
     if wscn:
